@@ -164,6 +164,19 @@ impl<N: Copy> OrderMap<N> {
     /// Set the position of a node.
     ///
     /// Panics if the node index is out of bounds.
+    /// The node `old` is now known as `new` (index renumbering in the graph): keep its
+    /// position.
+    #[track_caller]
+    pub(super) fn rename_node(&mut self, old: N, new: N, graph: impl NodeIndexable<NodeId = N>) {
+        let (old_idx, new_idx) = (graph.to_index(old), graph.to_index(new));
+        assert!(old_idx < self.node_to_pos.len() && new_idx < self.node_to_pos.len());
+
+        let pos = self.node_to_pos[old_idx];
+        self.node_to_pos[old_idx] = TopologicalPosition::default();
+        self.node_to_pos[new_idx] = pos;
+        self.pos_to_node.insert(pos, new);
+    }
+
     #[track_caller]
     pub(super) fn set_position(
         &mut self,
